@@ -105,6 +105,43 @@ func (fc *FnCtx) callAnchor(c *ssa.CallCommon, fnv Val) string {
 	return fc.anchors[c]
 }
 
+// callAnchorIn computes the anchor of a call inside fn (which may differ from the function being executed).
+func (fc *FnCtx) callAnchorIn(fn *ssa.Function, c *ssa.CallCommon) string {
+	save := fc.curFn
+	fc.curFn = fn
+	defer func() { fc.curFn = save }()
+	return fc.callAnchor(c, Val{})
+}
+
+// anchorGhosts lists the ghost variables assigned by clauses at an anchor of the current function.
+func (fc *FnCtx) anchorGhosts(anchor string) []string { return fc.anchorGhostsFn(fc.curFn, anchor) }
+
+func (fc *FnCtx) anchorGhostsFn(fn *ssa.Function, anchor string) []string {
+	con := fc.eng.contracts[fc.eng.fnName(fn)]
+	if con == nil || anchor == "" {
+		return nil
+	}
+	var res []string
+	for _, kind := range []string{"before_call", "after_call"} {
+		for _, c := range con.Extra[kind] {
+			if !strings.HasPrefix(c.Text, anchor+":") {
+				continue
+			}
+			stmt := strings.TrimSpace(c.Text[len(anchor)+1:])
+			w, rest := splitWord(stmt)
+			if w == "ghost" {
+				if i := strings.Index(rest, "="); i > 0 {
+					n := strings.TrimSpace(rest[:i])
+					if fc.eng.ghosts[n] != nil {
+						res = append(res, n)
+					}
+				}
+			}
+		}
+	}
+	return res
+}
+
 // pointClauses executes the `before_call` / `after_call` clauses attached to a call site:
 //   ghost X = E      assignment to a ghost variable
 //   assert E         obligation, then assumed
